@@ -101,9 +101,15 @@ func C12(cfg Cfg) int {
 					cmu.Lock()
 					arrivals = nil
 					cmu.Unlock()
-					pub, parts, err := inst.Stack.Process.OnGenerate(context.Background(), rig.Client1(), account, []byte("pass"), uint32(t), uint32(n))
+					// Every second request carries no passphrase: the participants then fall back to their configured
+					// generation passphrase (which their unlockers know).
+					pp := []byte("pass")
+					if seq%2 == 0 {
+						pp = nil
+					}
+					pub, parts, err := inst.Stack.Process.OnGenerate(context.Background(), rig.Client1(), account, pp, uint32(t), uint32(n))
 					run.Eval(1)
-					cell := fmt.Sprintf("n=%d t=%d ids=%s initiator=%d in-range=%v ok=%v", n, t, kind, ini, inRange, err == nil)
+					cell := fmt.Sprintf("n=%d t=%d ids=%s initiator=%d in-range=%v client-passphrase=%v ok=%v", n, t, kind, ini, inRange, pp != nil, err == nil)
 					run.Distinct(cell)
 					ctx := map[string]any{"n": n, "t": t, "ids": ids, "initiator": ids[ini], "account": account}
 					if !inRange {
